@@ -110,3 +110,22 @@ package lower
 //@   at makeFloatLiteral assert [mixed-mul] op == ir.BinaryMultiply ==> same(arg1, fL * fR)
 //@   at makeFloatLiteral assert [mixed-div] op == ir.BinaryDivide ==> same(arg1, fL / fR)
 //@   at makeFloatLiteral assert [mixed-mod] op == ir.BinaryModulo ==> same(arg1, fL - fptrunc(fL / fR) * fR)
+//
+// The integer constant evaluator (array sizes, switch selectors, const_assert,
+// workgroup_size, module-scope integer constants): on success the value is the
+// operator applied to the operand values; division and remainder by zero are
+// errors, never a substituted value.
+//
+//@ func (*Lowerer).evalConstantBinaryExpr
+//@   mode bv
+//@   tags C06 C11
+//@   at return assert [add] e.Op == parser.TokenPlus && result2 == nil ==> result1 == leftVal + rightVal
+//@   at return assert [sub] e.Op == parser.TokenMinus && result2 == nil ==> result1 == leftVal - rightVal
+//@   at return assert [mul] e.Op == parser.TokenStar && result2 == nil ==> result1 == leftVal * rightVal
+//@   at return assert [div] e.Op == parser.TokenSlash && result2 == nil ==> rightVal != 0 && result1 == leftVal / rightVal
+//@   at return assert [mod] e.Op == parser.TokenPercent && result2 == nil ==> rightVal != 0 && result1 == leftVal % rightVal
+//@   at return assert [and] e.Op == parser.TokenAmpersand && result2 == nil ==> result1 == leftVal & rightVal
+//@   at return assert [or] e.Op == parser.TokenPipe && result2 == nil ==> result1 == leftVal | rightVal
+//@   at return assert [xor] e.Op == parser.TokenCaret && result2 == nil ==> result1 == leftVal ^ rightVal
+//@   at return assert [div-by-zero] (e.Op == parser.TokenSlash || e.Op == parser.TokenPercent) && rightVal == 0 ==> result2 != nil
+//@   at return assert [kind] result2 == nil ==> result0 == ite(leftKind == ir.ScalarUint && rightKind == ir.ScalarUint, ir.ScalarUint, ir.ScalarSint)
